@@ -178,7 +178,7 @@ def pert_case(draw):
     N = spec["n"]
     return {"sig": spec, "kind": kind, "a": draw(st.integers(1, N - 2)), "k": draw(st.integers(1, 5)), "sign": draw(st.sampled_from([-1, 1])),
             "r": draw(st.sampled_from([1e-3, 1e-2, 0.5, 1.0, -1e-3, -0.25])), "j": draw(st.integers(0, 1)),
-            "axis": draw(st.sampled_from(["int", "name", "neg"]))}
+            "axis": draw(st.sampled_from(["int", "name", "neg"])), "via": draw(st.sampled_from(["like", "assign"]))}
 
 
 def other_class(pb, s):
@@ -189,11 +189,24 @@ def other_class(pb, s):
     return pb.Signal(s.data, **kw)
 
 
+def perturbed(p, via, **kw):
+    """a piece with one metadata field changed: a new object (like) or the same object after attribute assignment --
+    in the second case the piece has been fully inspected before (labels, times), so nothing stale may survive"""
+    if via != "assign":
+        return type(p).like(p, **kw)
+    q = type(p).like(p)
+    _ = (getattr(q, "channel_freqs", None), q.stop_time, getattr(q, "min_freq", None), q.time_length)
+    for k, v in kw.items():
+        setattr(q, k, v)
+    return q
+
+
 def run_pert(case, stt):
     import pulsarbat as pb
 
     spec = case["sig"]
     z = G.build(spec)
+    via = case.get("via", "like")
     N, a, k, kind = spec["n"], case["a"], case["k"], case["kind"]
     nd = z.ndim
     dt = 1 / z.sample_rate
@@ -201,7 +214,7 @@ def run_pert(case, stt):
     p0, p1 = z[:a], z[a:]
     good = None
     if kind == "shift_start":
-        bad = [p0, type(p1).like(p1, start_time=p1.start_time + case["sign"] * k * dt)]
+        bad = [p0, perturbed(p1, via, start_time=p1.start_time + case["sign"] * k * dt)]
     elif kind == "swap":
         bad = [p1, p0]
     elif kind == "overlap":
@@ -215,9 +228,9 @@ def run_pert(case, stt):
         if not case["j"]:
             bad = [type(p0).like(p0, sample_rate=p0.sample_rate * (1 + case["r"])), p1]
     elif kind == "chan_bw":
-        bad = [p0, type(p1).like(p1, chan_bw=p1.chan_bw * 2)]
+        bad = [p0, perturbed(p1, via, chan_bw=p1.chan_bw * 2)]
     elif kind == "center_freq":
-        bad = [p0, type(p1).like(p1, center_freq=p1.center_freq + case["sign"] * k * p1.chan_bw)]
+        bad = [p0, perturbed(p1, via, center_freq=p1.center_freq + case["sign"] * k * p1.chan_bw)]
     elif kind == "class":
         bad = [p0, other_class(pb, p1)]
     elif kind == "twice":
@@ -236,7 +249,7 @@ def run_pert(case, stt):
         elif kind == "f_order":
             bad = [f1, f0]
         elif kind == "f_start":
-            bad = [f0, type(f1).like(f1, start_time=f1.start_time + case["sign"] * k * dt)]
+            bad = [f0, perturbed(f1, via, start_time=f1.start_time + case["sign"] * k * dt)]
         elif kind == "f_rate":
             if isinstance(z, pb.BasebandSignal):
                 bad = [f0, type(f1).like(f1, sample_rate=f1.sample_rate * (1 + abs(case["r"]) + 1e-3))]
@@ -253,9 +266,9 @@ def run_pert(case, stt):
         tr = nd - 1
         axo = tr if case["axis"] != "neg" else -1
         if kind == "o_start":
-            bad = [z, type(z).like(z, start_time=z.start_time + case["sign"] * k * dt)]
+            bad = [z, perturbed(z, via, start_time=z.start_time + case["sign"] * k * dt)]
         elif kind == "o_labels":
-            bad = [z, type(z).like(z, center_freq=z.center_freq + case["sign"] * k * z.chan_bw)]
+            bad = [z, perturbed(z, via, center_freq=z.center_freq + case["sign"] * k * z.chan_bw)]
         else:
             bad = [z, type(z).like(z, sample_rate=z.sample_rate * (1 + case["r"]))]
         fixed = {"FullStokesSignal": 2, "DualPolarizationSignal": 2}.get(spec["cls"])
@@ -280,6 +293,7 @@ def run_pert(case, stt):
         must_raise("concatenate(time) of %s" % kind, lambda: pb.concatenate(bad, axis=ax_t), (ValueError, TypeError))
     stt.nt()
     stt.label(kind)
+    stt.label("via_" + via)
 
 
 def run_misc(spec, stt):
